@@ -39,7 +39,7 @@ func genVectorRecs(r *vk.RNG, steps int, perStep int) []Rec {
 					l[k] = vk.Pick(r, []string{"x", "y", "z"})
 					if blanks {
 						// values that differ only in surrounding white space are different values
-						l[k] = vk.Pick(r, []string{"x", "x ", " x", "x\t", " ", "  ", "x\r"})
+						l[k] = vk.Pick(r, []string{"x", "x ", " x", "x\t", " ", "  ", "x\r", "", ""}) // (and present with the empty value, which is not absent)
 					}
 				}
 			}
